@@ -256,6 +256,9 @@ def families(thorough):
         fam.append(('D', block(4, oa9_rows), (2,), {2: 3}))
         fam.append(('E', block(5, [[R3[v] for v in r] for r in oa27()]), (1, 2), {1: 2, 2: 1}))
         fam.append(('F', flaky(list(itertools.product(R3, repeat=2))), (2,), {2: 3}))
+    # M: many bad results in one run (the exit status is one byte: a count of failures must not wrap to 0); default schedule only
+    many = (255, 256, 257) if not thorough else (255, 256, 257, 511, 512)
+    fam.append(('M', [[mk('P', 'n', 'e', 'fail')], [mk('P', 'n', 'e', 'fail'), mk('S', 'n', 'e', 'ok')], [mk('P', 'x', 'e', 'ok')]], many, {r: 0 for r in many}))
     if os.environ.get('C12_FAMS'):      # debugging aid only
         fam = [f for f in fam if f[0] in os.environ['C12_FAMS']]
     return fam
@@ -270,7 +273,9 @@ def configurations(thorough):
                 for jobs in (1, 2, 3):
                     if name == 'F' and jobs == 1:
                         continue
-                    for maxfail in (0, 1):
+                    if name == 'M' and jobs == 2:
+                        continue
+                    for maxfail in ((0, 1) if name != 'M' else (0,)):
                         cfg = {'fam': name, 'tests': tests, 'jobs': jobs, 'repeat': repeat, 'maxfail': maxfail}
                         out.append((cfg, bounds[repeat]))
                         if name in ('A', 'B') and repeat == 1 and maxfail == 0 and jobs <= 2:
@@ -346,6 +351,8 @@ def check_totals_exit(V, tally, ninterrupt, printed, dup, rc, any_selected):
             V.append(('C12:totals:Fail', 'printed Fail: %d, tally FAIL+ERROR = %d (+%d interrupted) (%r)'
                       % (printed.get('Fail', 0), lo, ninterrupt, dict(tally))))
     bad = sorted(k for k in BAD if tally.get(k))
+    if isinstance(rc, int) and not isinstance(rc, bool):
+        rc = rc % 256          # what the process that started `meson test` sees: the exit status is one byte
     if bad and rc == 0:
         V.append(('C12:exit:zero-despite-' + '+'.join(bad), 'exit status 0 although results are %r' % dict(tally)))
     if not bad and rc != 0:
@@ -568,7 +575,7 @@ def run_schedule(cfg, wd, prefix=(), sig=()):
             sys.stdout, sys.stderr = old
             world.stdout_text = buf.getvalue()
         return rc
-    r, world = vloop.execute(body, behaviour_of(cfg), prefix, sig, HORIZON)
+    r, world = vloop.execute(body, behaviour_of(cfg), prefix, sig, HORIZON if cfg.get('fam') != 'M' else 4 * len(cfg['tests']) * cfg['repeat'] + 60)
     jrecs = []
     try:
         with open(jpath, encoding='utf-8') as f:
